@@ -25,6 +25,9 @@ type Ty struct {
 	Fields []Fld
 	// user-declared methods on a named struct (pointer receiver): "Equal", "Compare"
 	UserEqual bool
+	// user-declared Equal with a VALUE receiver and a value parameter (named struct: ignores the last field;
+	// named integer: compares the lowest bit only), so that it differs from == although the type is comparable
+	UserEqualVal bool
 }
 
 func B(n string) *Ty              { return &Ty{K: "basic", Name: n} }
@@ -183,6 +186,20 @@ func (g *Gen) Decls() string {
 			}
 			fmt.Fprintf(&sb, "func (this *%s) Equal(that *%s) bool {\n\tif this == nil || that == nil {\n\t\treturn this == nil && that == nil\n\t}\n\treturn %s\n}\n\n", n, n, strings.Join(cs, " && "))
 		}
+		if d.UserEqualVal {
+			if d.Under.K == "struct" {
+				var cs []string
+				for i, f := range d.Under.Fields {
+					if i == len(d.Under.Fields)-1 && len(d.Under.Fields) > 1 {
+						break
+					}
+					cs = append(cs, fmt.Sprintf("this.%s == that.%s", f.Name, f.Name))
+				}
+				fmt.Fprintf(&sb, "func (this %s) Equal(that %s) bool {\n\treturn %s\n}\n\n", n, n, strings.Join(cs, " && "))
+			} else {
+				fmt.Fprintf(&sb, "func (this %s) Equal(that %s) bool {\n\treturn this&1 == that&1\n}\n\n", n, n)
+			}
+		}
 	}
 	return sb.String()
 }
@@ -231,6 +248,9 @@ func (g *Gen) RefEq(t *Ty) string {
 	switch u.K {
 	case "basic":
 		body = "\treturn a == b\n"
+		if t.K == "named" && t.UserEqualVal {
+			body = "\treturn a.Equal(b)\n"
+		}
 	case "ptr":
 		el := g.resolve(u.Elem)
 		if el.K == "named" && el.UserEqual {
@@ -247,6 +267,10 @@ func (g *Gen) RefEq(t *Ty) string {
 	case "struct":
 		if t.K == "named" && t.UserEqual {
 			body = "\treturn (&a).Equal(&b)\n"
+			break
+		}
+		if t.K == "named" && t.UserEqualVal {
+			body = "\treturn a.Equal(b)\n"
 			break
 		}
 		var sb strings.Builder
